@@ -52,7 +52,7 @@ def required_cells(tier):
             "dangling:same-name-two-dirs", "dangling:same-name-both-forms", "dangling:site-reached-by-2+-commands",
             "unknown-directive:live", "unknown-directive:dead", "benign-directive:dead", "db:missing-file", "db:unknown-compiler",
             "db:unknown-flags", "control:no-warnings", "totals-compared", "memo:failure-then-success-elsewhere",
-            "db:unknown-flags>80-characters", "dangling:below-depth>=64", "db:unknown-implicit-option-from-user-configuration", "header-is-a-compile-command", "log-file-cannot-be-created:refused", "db:entry-repeated-exactly", "unknown-directive:after-form-feed", "db:missing-forced-include", "db:config-redefinition"]
+            "db:unknown-flags>80-characters", "dangling:below-depth>=64", "db:unknown-implicit-option-from-user-configuration", "header-is-a-compile-command", "log-file-cannot-be-created:refused", "db:entry-repeated-exactly", "unknown-directive:after-form-feed", "db:missing-forced-include", "db:config-redefinition", "dangling:name-with-blanks-and-category-words:cli"]
 
 
 def is_dangling(name):
@@ -395,6 +395,8 @@ def check_case(ctx, case, base, cls, via_cli, rng):
         cells.add("header-is-a-compile-command")
     if any("dup_of" in tu for tu in case["tus"]):
         cells.add("db:entry-repeated-exactly")
+    if case.get("category_words") and any("include.h" in k[2] for k, n in exp["want"].items() if n):
+        cells.add("dangling:name-with-blanks-and-category-words" + (":cli" if via_cli else ""))
     if any(s_[2].lstrip(" ")[:1] in "\f\v" and s_[3] == "unknown" and s_[4] for s_ in exp["dsites"]):
         cells.add("unknown-directive:after-form-feed")
     # one command-line case in 8 runs where the log file cannot be created (cbi.log is a directory): the tool may refuse to
@@ -448,8 +450,9 @@ def check_case(ctx, case, base, cls, via_cli, rng):
                          "user": re.search(r"(\d+) user include files could not be found", out),
                          "system": re.search(r"(\d+) system include files could not be found", out)}
                 metas = {k: int(v.group(1)) if v else 0 for k, v in metas.items()}
-                n_user = sum(1 for w in warnings if INC_RE.match(w.split("\n")[0]) and "user include" in w.split("\n")[0])
-                n_sys = sum(1 for w in warnings if INC_RE.match(w.split("\n")[0]) and "system include" in w.split("\n")[0])
+                kinds_ = [m_.group(3) for m_ in (INC_RE.match(w.split("\n")[0]) for w in warnings) if m_]
+                n_user = kinds_.count("user include")
+                n_sys = kinds_.count("system include")
                 cells.add("totals-compared")
                 if metas != {"all": len(warnings), "user": n_user, "system": n_sys}:
                     problems.append({"kind": "printed totals differ from warnings issued", "printed": metas,
@@ -523,6 +526,19 @@ def run_shard(ctx):
             if hs:
                 h = hs[i % len(hs)]
                 case["tus"].append(dict(case["tus"][0], file=h, includes=[]))
+        if i % 4 == 3:
+            # requested names that hold blanks and the very words the end-of-run totals are keyed on: a quote include of
+            # "... system include.h" is one USER include warning, an angle include of <... user include.h> one SYSTEM one
+            def rename(body):
+                for it in body:
+                    if it[0] == "include" and it[1] in ("q", "a") and it[2] == "nothere.h":
+                        it[2] = "nothere system include.h" if it[1] == "q" else "nothere user include.h"
+                        case["category_words"] = True
+                    elif it[0] == "chain":
+                        for _, _, sub in it[1]:
+                            rename(sub)
+            for body_ in case["files"].values():
+                rename(body_)
         crng_seed = rng.random()
         if ctx.mine(i):
             import random as _r
